@@ -14,7 +14,7 @@ try:
     head = "".join(open(os.path.join(src, demo)).readlines()[:8])
     dest = re.search(r"(?:Copy to|Destination:)\s*(\S+)", head).group(1).rstrip(";,.:")
     dest = re.sub(r"^/tmp/seed/[^/]+/", "", dest)   # some seeders name the path inside their own worktree
-    run = re.search(r"(go test [^\n]*)", head).group(1).strip()
+    run = re.search(r"(go test [^\n(]*)", head).group(1).strip()
     patch = os.path.join(src, "patch.diff")
     pkgs = sorted({"./" + os.path.dirname(m) for m in re.findall(r"^\+\+\+ b/(\S+)", open(patch).read(), re.M)})
     res = {}
